@@ -1,2 +1,146 @@
+"""Thorough tier, on top of the quick decision (the bounded stand-ins already run at their larger bounds in this tier):
+
+ 1. solver stability: every Verus unit of the property is re-run under two more solver seeds; a unit that verifies under one seed and
+    not under another is reported as unstable (informational: the decision stays with the quick run's retry policy).
+ 2. contract self-test: mechanical mutants (relational/boolean flips, dropped statements, swapped arguments, off-by-one constants) of
+    the REAL functions under contract -- applied to a scratch copy of /repo's sources, re-extracted and re-verified -- must each be
+    rejected by an obligation.  A mutant that still verifies completely is a *survivor*: either an equivalent mutant or a gap in the
+    contracts; survivors are listed in the evidence (they do not change the exit code: the unchanged tree is what is being decided).
+"""
+import os, re, json, time, random, shutil, tempfile
+from concurrent.futures import ThreadPoolExecutor
+from . import weave, verus as V, rustsrc
+
+MAX_MUTANTS_PER_UNIT = int(os.environ.get('VERIF_MUTANTS_PER_UNIT', '16'))
+BUDGET_S = int(os.environ.get('VERIF_THOROUGH_BUDGET_S', '900'))
+
+REL = [(' < ', ' <= '), (' <= ', ' < '), (' > ', ' >= '), (' >= ', ' > '), (' == ', ' != '), (' != ', ' == '), (' && ', ' || '), (' || ', ' && '),
+       (' + 1', ' - 1'), (' - 1', ' + 1'), ('true', 'false'), ('false', 'true'), ('if !', 'if '), ('.is_some()', '.is_none()'), ('.is_none()', '.is_some()'),
+       ('Ok(true)', 'Ok(false)'), ('Ok(false)', 'Ok(true)')]
+CALL2 = re.compile(r'(\b[\w.:]+)\((\s*&?(?:mut )?[A-Za-z_][\w.]*\s*),(\s*&?(?:mut )?[A-Za-z_][\w.]*\s*)\)')
+
+def _mutants_of(body_lines):
+    """[(line index, new line or None for deletion, description)]"""
+    out = []
+    for i, l in enumerate(body_lines):
+        s = l.strip()
+        if not s or s.startswith('//') or s.startswith('#['): continue
+        code = l.split('//')[0]
+        for a, b in REL:
+            k = code.find(a)
+            if k >= 0: out.append((i, code[:k] + b + code[k + len(a):], '`%s` -> `%s`' % (a.strip(), b.strip())))
+        m = CALL2.search(code)
+        if m and m.group(2).strip() != m.group(3).strip():
+            out.append((i, code[:m.start()] + '%s(%s,%s)' % (m.group(1), m.group(3), m.group(2)) + code[m.end():], 'swapped the arguments of `%s`' % m.group(1)))
+        if s.endswith(';') and not s.startswith(('let ', 'return', 'break', 'continue', 'use ')) and s.count('(') == s.count(')') and '{' not in s and '}' not in s:
+            out.append((i, None, 'dropped the statement `%s`' % s[:60]))
+    return out
+
+def _unit_items(repo, vc):
+    u = weave.parse_vc(vc); cache = {}; items = []
+    for sec in u.sections:
+        if sec[0] != 'item': continue
+        spec = sec[1]
+        try:
+            text, it = weave.extract_item(repo, spec, cache)
+        except weave.WeaveError:
+            continue
+        if it.kind != 'fn': continue
+        items.append((spec, it, text))
+    return items
+
+def _verify(repo, vc, out_dir, edition_args=None):
+    gen = os.path.join(out_dir, 'unit.rs')
+    try:
+        meta = weave.generate(repo, vc, gen)
+    except weave.WeaveError as e:
+        return 'rejected (extraction: %s)' % str(e)[:80], None
+    res = V.run_verus(gen, meta['edition'], meta['verus_args'], None, 1, timeout=600)
+    cls = V.classify(meta, res, open(gen).read())
+    if cls['compile_errors']: return 'rejected (does not type-check under the shims)', None
+    if cls['resource'] and not (cls['failed_tags'] or cls['untagged']): return 'undecided (resource limit)', None
+    if cls['failed_tags'] or cls['untagged'] or cls['infra'] or not cls['success']:
+        tags = sorted(cls['failed_tags'])[:3] or sorted({t for it, _ in cls['untagged'] for t in cls['item_tags'].get(it, [])})[:3]
+        return 'killed', tags
+    return 'SURVIVED', None
+
+def self_test(here, repo, pid, units, seed, deadline):
+    rng = random.Random(seed or 1)
+    report = {'mutants': 0, 'killed': 0, 'rejected_untyped': 0, 'undecided': 0, 'survivors': [], 'per_unit': {}, 'skipped_units': []}
+    scratch = tempfile.mkdtemp(prefix='pie_verif_mut_')
+    try:
+        jobs = []
+        for unit in units:
+            vc = os.path.join(here, 'contracts', unit + '.vc')
+            items = _unit_items(repo, vc)
+            cands = []
+            for spec, it, text in items:
+                lines = text.split('\n')
+                # body = after the line holding the opening brace of the fn
+                b0 = next((k for k, l in enumerate(lines) if l.rstrip().endswith('{')), 0) + 1
+                for (i, new, what) in _mutants_of(lines[b0:]):
+                    cands.append((spec, it, b0 + i, new, what))
+            rng.shuffle(cands)
+            for c in cands[:MAX_MUTANTS_PER_UNIT]: jobs.append((unit, vc) + c)
+        def one(k_job):
+            k, (unit, vc, spec, it, li, new, what) = k_job
+            if time.time() > deadline: return unit, spec.path, what, 'not run (time budget)', None
+            root = os.path.join(scratch, 'w%d' % k); os.makedirs(root)
+            for sub in ('graph/src', 'pie/src'):
+                shutil.copytree(os.path.join(repo, sub), os.path.join(root, sub))
+            fpath = os.path.join(root, spec.file); src = open(fpath).read()
+            ls = src.rfind('\n', 0, it.start) + 1
+            item_text = src[ls:it.end]; lines = item_text.split('\n')
+            if new is None: del lines[li]
+            else: lines[li] = new
+            open(fpath, 'w').write(src[:ls] + '\n'.join(lines) + src[it.end:])
+            verdict, tags = _verify(root, vc, os.path.join(root, 'gen'))
+            shutil.rmtree(root, ignore_errors=True)
+            return unit, spec.path, what, verdict, tags
+        with ThreadPoolExecutor(max_workers=8) as ex:
+            for unit, item, what, verdict, tags in ex.map(one, list(enumerate(jobs))):
+                pu = report['per_unit'].setdefault(unit, {'mutants': 0, 'killed': 0, 'survived': 0})
+                if verdict.startswith('not run'): continue
+                report['mutants'] += 1; pu['mutants'] += 1
+                if verdict == 'killed': report['killed'] += 1; pu['killed'] += 1
+                elif verdict.startswith('rejected'): report['rejected_untyped'] += 1
+                elif verdict.startswith('undecided'): report['undecided'] += 1
+                else:
+                    pu['survived'] += 1
+                    report['survivors'].append({'unit': unit, 'item': item, 'mutant': what})
+    finally:
+        shutil.rmtree(scratch, ignore_errors=True)
+    return report
+
+def stability(here, repo, units, seed):
+    out = {}
+    def one(u):
+        vc = os.path.join(here, 'contracts', u + '.vc'); d = tempfile.mkdtemp(prefix='pie_verif_stab_')
+        try:
+            gen = os.path.join(d, u + '.rs'); meta = weave.generate(repo, vc, gen); text = open(gen).read(); runs = []
+            for sd in ((seed or 0) + 101, (seed or 0) + 202):
+                res = V.run_verus(gen, meta['edition'], meta['verus_args'], sd, 1)
+                cls = V.classify(meta, res, text)
+                runs.append({'seed': sd, 'verified': cls['verified'], 'errors': cls['errors'], 'resource_outs': len(cls['resource']), 'wall_s': res['wall_s']})
+            return u, runs
+        except weave.WeaveError as e:
+            return u, [{'error': str(e)[:200]}]
+        finally:
+            shutil.rmtree(d, ignore_errors=True)
+    with ThreadPoolExecutor(max_workers=4) as ex:
+        for u, runs in ex.map(one, units): out[u] = runs
+    return out
+
 def run(here, repo, pid, P, seed, D):
-    return {}
+    t0 = time.time(); deadline = t0 + BUDGET_S
+    units = P.get('verus_units', [])
+    rep = {'undecided': [], 'violations': []}
+    if not units: return rep
+    rep['solver_stability'] = stability(here, repo, units, seed)
+    unstable = [u for u, runs in rep['solver_stability'].items() if any(r.get('errors', 0) not in (0,) for r in runs)]
+    if unstable: rep['unstable_units'] = unstable
+    # self-test only the units whose obligations carry this property's tags (imports are other properties' business)
+    own = [u for u in units if any(o['unit'] == u for o in D['obligations'])]
+    rep['contract_self_test'] = self_test(here, repo, pid, own, seed, deadline)
+    rep['wall_s'] = round(time.time() - t0, 1)
+    return rep
